@@ -404,6 +404,8 @@ RULES = {
     "R44": [(".read()", ".vread_held()"), (".write()", ".vwrite_free()")],
     # R45: `log_files.sort_unstable()` / `log_files.reverse()` on the Vec<PathBuf> of read_dir_related_files -> shims (`Ord for PathBuf` is an oracle order)
     "R45": [("log_files.sort_unstable()", "vsort_unstable(&mut log_files)"), ("log_files.reverse()", "vreverse(&mut log_files)")],
+    # R46: `std::io::Error::other(e)` -> shim `vio_error_other(e)` (an io::Error about which nothing is known)
+    "R46": [("std::io::Error::other(", "super::flexi_error::vio_error_other(")],
     # R43 (computed + literal): check_timestamp_format: chrono's delayed formats -> opaque shims that remember how they were made, and
     # `write!(infix, "{}", <e>)` -> `vwrite_display(&mut infix, &(<e>))`
     "R43": [("now.naive_utc().format(format)", "vfmt_naive(format)"), ("now.format(format)", "vfmt_local(format)"),
